@@ -131,8 +131,9 @@ def run(prop, tier, seed, replay=None):
     cases = []
     for c in res:
         ms = [{"id": m["id"], "params": params_of(m)} for m in c["world"]["methods"]]
-        steps = [{"shape": s["shape"], "obs": {k: s["obs"][k] for k in ("kind", "m", "bind", "ret", "slf")}} for s in c["steps"]]
-        cases.append({"id": c["id"], "methods": ms, "steps": steps})
+        steps = [{"shape": s["shape"], "obs": {k: s["obs"][k] for k in ("kind", "m", "bind", "ret", "slf")},
+                  **({"bindok": s["bindok"]} if "bindok" in s else {})} for s in c["steps"]]
+        cases.append({"id": c["id"], "methods": ms, "steps": steps, **({"sig": c["sig"]} if "sig" in c else {})})
     verdicts = {}
     B = 1500
     for k in range(0, len(cases), B):
@@ -147,9 +148,15 @@ def run(prop, tier, seed, replay=None):
             if st["obs"]["kind"] in ("run", "raised") and (st["shape"]["kws"] or any(t == "dflt" for t in st["obs"]["bind"])):
                 rep.note_nontrivial(json.dumps([c["world"]["methods"], st["shape"]], sort_keys=True, default=str))
         for rej in static.rejections(v):
+            if rej["clause"].startswith("X1:"):
+                # beyond the listed properties (inspect.signature of the function): reported, never a verdict
+                rep.extra_note(rej["clause"], {"methods": [params_of(m) for m in c["world"]["methods"]], "sig": c.get("sig"),
+                                               "step": c["steps"][rej["step"] - 1] if rej["step"] else None})
+                continue
             st = c["steps"][rej["step"] - 1]
             rep.rejected(rej["clause"], {"kind": "entry_case", "world": c["world"], "step": st, "case_id": cid},
                          {"kflag": rej["kf"], "shape": st["shape"]})
+    rep.extra_checked("X1:signature", len([c for c in res if "sig" in c]))
     # ---- the generated value dispatchers (Dependent / Literal annotations), as functions and as methods with self
     from . import c10
 
